@@ -20,7 +20,9 @@ OUTER = [
     'implies(n is None, _y0 == 0 and _y1 == 0)', 'implies(n is not None, _y0 == 1 and _y1 == 1)',
 ]
 
-CLASSMODELS = {}
+CLASSMODELS = {
+    'CNFw': {'file': 'cnfgen/formula/cnf.py', 'real': 'CNF', 'fields': {'_clauses': 'mclist', '_numvar': 'int', 'header': 'opaque'}},
+}
 
 CONTRACTS = {
     (P, 'parse_dimacs'): {
@@ -35,5 +37,35 @@ CONTRACTS = {
             2: ['n is not None', 'forall(lambda j: implies(0 <= j and j < len(yielded), 1 <= abs(yielded[j]) and abs(yielded[j]) <= n))'],
         },
         'ensures': ['final("n") is not None', 'final("_y0") == 1', 'final("_y1") == 1', 'final("m") == final("_y2")', 'len(final("literal_buffer")) == 0'],
+    },
+    ('cnfgen/formula/basecnf.py', 'BaseCNF.number_of_variables'): {'inline_always': True},
+    ('cnfgen/formula/basecnf.py', 'BaseCNF.number_of_clauses'): {'inline_always': True},
+    ('cnfgen/formula/basecnf.py', 'BaseCNF.__len__'): {'inline_always': True},
+    ('cnfgen/formula/basecnf.py', 'BaseCNF.__iter__'): {'inline_always': True},
+    # VariablesManager.all_variable_labels: the assumed contract of contracts/transformations_subst.py (keys are global)
+    # C06 writer half, for EVERY formula and both switches, under the event abstraction (one event per write() call; the text
+    # of a formatted piece is identified by its template and its integer arguments; comment events are not looked into except
+    # that they cannot leave the comment: each is a line starting with 'c', multi-line values are re-prefixed):
+    #   the non-comment output is exactly  "p cnf <n> <m>\n"  with n = number of variables, m = number of clauses - the TRUE
+    #   counts -, followed by, for every clause in order, "<lit> " for each literal in order and then "0\n".  Nothing else.
+    # What the abstraction leaves to the bounded tier: that these pieces of text read back as the integers they were made from.
+    (P, 'to_dimacs_file'): {
+        'property': ['C06'],
+        'trace': {'comment': 'c'},
+        'params': {'formula': 'obj:CNFw', 'fileorname': 'sink', 'export_header': 'bool', 'export_varnames': 'bool'},
+        'defines': ['forall(lambda l: levent(1, l) == ev("{} ", l), lambda l: levent(1, l))'],
+        'loops': {
+            0: {'ghost_at_entry': {'D0': 'dropc(trace(output))'}, 'inv': ['dropc(trace(output)) == D0']},
+            1: {'ghost_at_entry': {'D0': 'dropc(trace(output))'}, 'inv': ['dropc(trace(output)) == D0']},
+            2: {'counter': '_itc', 'ghost_at_entry': {'D1': 'dropc(trace(output))', 'C0': '_iter'},
+                'inv': ['dropc(trace(output)) == capp(D1, dclauses(1, tid("0\\n"), C0, _itc))']},
+            3: {'inv': ['dropc(trace(output)) == capp(capp(D1, dclauses(1, tid("0\\n"), C0, _itc)), dlits(1, cls, _it))']},
+        },
+        'ensures': [
+            'dropc(trace(fileorname)) == capp(csnoc(dropc(old(trace(fileorname))), '
+            'ev("p cnf {0} {1}\\n", formula._numvar, clen(formula._clauses))), '
+            'dclauses(1, tid("0\\n"), formula._clauses, clen(formula._clauses)))',
+            'formula._clauses == old(formula._clauses)', 'formula._numvar == old(formula._numvar)',
+        ],
     },
 }
